@@ -118,6 +118,10 @@ func RunForStmt(ctx *Task, stmt *ast.ForStmt) *errchain.PlError {
 	}
 
 	for {
+		// exit() in the init or loop clause, or a fired signal, ends the loop
+		if ctx.ProcExit() {
+			break
+		}
 		if stmt.Cond != nil {
 			err := RunExpr(ctx, stmt.Cond)
 			if err != nil {
